@@ -283,8 +283,87 @@ SCENARIOS = {s.name: s for s in (ElasticStatic, ElasticNewmark, ThermalParabolic
                                  PhaseFieldHistoryDamage, InElasticScn, HyperScn, WeakFormScn)}
 
 
-def cases(tier, seed):
+MESH_OPS = ["save", "translate", "rotate", "symmetry", "settag", "partition"]
+
+
+def _mesh_cases(tier):
+    """Mesh.Save / Load_Mesh round trip: element type x source x every sequence of <= 2 operations before the save."""
     out = []
+    ets = Z.TYPES_2D + Z.TYPES_3D if tier == "thorough" else ["TRI3", "TRI6", "QUAD4", "QUAD9", "TETRA4", "TETRA10", "HEXA8", "PRISM6", "PRISM15"]
+    for et in ets:
+        for src in ("gmsh", "template", "mixed"):
+            if src == "mixed" and et not in ("TRI3", "TRI6", "PRISM6"):
+                continue
+            for seq in [()] + [(a,) for a in MESH_OPS[1:]] + [(a, b) for a in MESH_OPS[1:] for b in MESH_OPS[1:] if a != b]:
+                out.append({"kind": "meshio", "elemType": et, "src": src, "ops": list(seq)})
+    return out
+
+
+def _run_meshio(case):
+    from EasyFEA.FEM import Mesher
+    from EasyFEA.FEM._mesh import Load_Mesh
+
+    et, src = case["elemType"], case["src"]
+    d = Z.dim_of(et)
+    tmp = tempfile.mkdtemp(prefix="c15m_")
+    try:
+        if src == "gmsh":
+            mesh = Z.gmsh_2d(et, "quad", h=0.6)[0] if d == 2 else Z.gmsh_3d(et, "quad", h=0.7)[0]
+        elif src == "template":
+            mesh = (Z.template_2d(et, 2, distort=True) if d == 2 else Z.template_3d(et, 1)).build()
+        else:
+            mix = {"TRI3": ("TRI3", "QUAD4"), "TRI6": ("TRI6", "QUAD9"), "PRISM6": ("PRISM6", "HEXA8")}[et]
+            mesh = (Z.template_2d(mix, 2) if d == 2 else Z.template_3d(mix, (2, 1, 1))).build()
+        key = dict(elemType=et, src=src, ops="+".join(case["ops"]))
+        for op in case["ops"]:
+            if op == "translate":
+                mesh.Translate(0.3, -0.2, 0.1 if mesh.inDim == 3 else 0.0)
+            elif op == "rotate":
+                mesh.Rotate(40.0, (0.1, 0.2, 0.0), (0, 0, 1))
+            elif op == "symmetry":
+                mesh.Symmetry((0.2, 0.0, 0.0), (1.0, 0.3, 0.0))
+            elif op == "settag":
+                x = mesh.coord[:, 0]
+                mesh.Set_Tag(np.where(x <= np.median(x))[0], "userTag")
+            elif op == "partition":
+                pass  # serial: the partition data of every group is the trivial one; it must survive the round trip
+        with _quiet():
+            path = mesh.Save(os.path.join(tmp, "m"), "themesh")
+        other = Load_Mesh(path)
+        v = []
+        if other.Nn != mesh.Nn or not _eq(np.array(other.coord), np.array(mesh.coord)):
+            v.append(viol("mesh_load_coords", f"{et}/{src} after {case['ops']}: loaded coordinates differ", **key))
+        if set(k.name for k in other.dict_groupElem) != set(k.name for k in mesh.dict_groupElem):
+            v.append(viol("mesh_load_groups", f"{et}/{src}: groups {sorted(k.name for k in other.dict_groupElem)} vs {sorted(k.name for k in mesh.dict_groupElem)}", **key))
+        else:
+            for k, g in mesh.dict_groupElem.items():
+                g1 = other.dict_groupElem[k]
+                if not _eq(np.array(g.connect), np.array(g1.connect)):
+                    v.append(viol("mesh_load_connect", f"{et}/{src}: connectivity of group {k.name} differs", group=k.name, **key))
+                    continue
+                if sorted(g.nodeTags) != sorted(g1.nodeTags) or any(not _eq(np.sort(g.Get_Nodes_Tag(t)), np.sort(g1.Get_Nodes_Tag(t))) for t in g.nodeTags):
+                    v.append(viol("mesh_load_node_tags", f"{et}/{src}: node tags of group {k.name} differ: {sorted(g.nodeTags)} vs {sorted(g1.nodeTags)}", group=k.name, **key))
+                if sorted(g.elementTags) != sorted(g1.elementTags) or any(
+                        not _eq(np.sort(g.Get_Elements_Tag(t)), np.sort(g1.Get_Elements_Tag(t))) for t in g.elementTags if t in g1.elementTags):
+                    bad = [t for t in sorted(set(g.elementTags) | set(g1.elementTags))
+                           if t not in g.elementTags or t not in g1.elementTags or not _eq(np.sort(g.Get_Elements_Tag(t)), np.sort(g1.Get_Elements_Tag(t)))]
+                    v.append(viol("mesh_load_element_tags", f"{et}/{src}: element tags of group {k.name} differ for {bad[:4]} "
+                                                            f"(saved {sorted(g.elementTags)[:6]}, loaded {sorted(g1.elementTags)[:6]})", group=k.name, **key))
+                for i, (a, b) in enumerate(zip(g._Get_partitioned_data(), g1._Get_partitioned_data())):
+                    if not _eq(np.asarray(a), np.asarray(b)):
+                        v.append(viol("mesh_load_partition", f"{et}/{src}: partition data item {i} of group {k.name} differs", group=k.name, **key))
+                        break
+        meas = other.area if d == 2 else other.volume
+        meas0 = mesh.area if d == 2 else mesh.volume
+        if abs(meas - meas0) > 1e-13 * abs(meas0):
+            v.append(viol("mesh_load_measure", f"{et}/{src}: measure {meas!r} vs {meas0!r}", **key))
+        return {"violations": v[:6], "fingerprint": fp(et, src, case["ops"], np.array(mesh.coord)), "nontrivial": True, "transitions": len(case["ops"]) + 2}
+    finally:
+        shutil.rmtree(tmp, ignore_errors=True)
+
+
+def cases(tier, seed):
+    out = _mesh_cases(tier)
     depth = 2 if tier == "quick" else 3
     for name in SCENARIOS:
         for pre in PREFIXES:
@@ -347,6 +426,8 @@ def _strip(res):
 
 
 def run_case(case):
+    if case.get("kind") == "meshio":
+        return _run_meshio(case)
     scn = SCENARIOS[case["scn"]]()
     tmp = tempfile.mkdtemp(prefix="c15_")
     try:
